@@ -691,17 +691,17 @@ type GuardDecl struct {
 }
 
 type SpecSet struct {
-	Funcs   map[string]*FuncSpec
-	Pures   map[string]*PureDecl
-	Axioms  []*AxiomDecl
-	Ghosts  []*GhostField
-	Sorts   map[string]string
-	Guards  []*GuardDecl
-	RawSMT  []string
+	Funcs     map[string]*FuncSpec
+	Pures     map[string]*PureDecl
+	Axioms    []*AxiomDecl
+	Ghosts    []*GhostField
+	Sorts     map[string]string
+	Guards    []*GuardDecl
+	RawSMT    []string
 	FieldInvs []*FieldInv
 	GhostVars map[string]string // name -> sort
-	Order   []string // function keys in declaration order
-	Lemmas  []*AxiomDecl
+	Order     []string          // function keys in declaration order
+	Lemmas    []*AxiomDecl
 }
 
 func NewSpecSet() *SpecSet {
